@@ -217,8 +217,9 @@ def type_range(w, sg):
 class Gen(object):
     """random scenarios: a root class with scalar / enum fields and optional sub-objects (tree of classes)"""
 
-    def __init__(self, rnd, small=True, tree=False, hist=False, ninst=1):
+    def __init__(self, rnd, small=True, tree=False, hist=False, ninst=1, soft_bias=False):
         self.ninst = ninst
+        self.soft_bias = soft_bias
         self.rnd = rnd
         self.small = small
         self.tree = tree          # allow sub-objects
@@ -368,9 +369,25 @@ class Gen(object):
             return ["f", rnd.choice(self.fs)[0]]
         return self.relation()
 
+    def soft_stmt(self):
+        """a soft constraint likely to conflict with its neighbours: field (== | < | > | in) constant"""
+        rnd = self.rnd
+        path, f = rnd.choice(self.fs)
+        if rnd.random() < 0.75:
+            return ["soft", ["bin", rnd.choice(["Eq", "Eq", "Eq", "Lt", "Gt", "Ne"]), ["f", path], self.lit_for(f)]]
+        return ["soft", self.relation(1)]
+
     def stmt(self, depth=2, allow_soft=False):
         rnd = self.rnd
         r = rnd.random()
+        if self.soft_bias and allow_soft and rnd.random() < 0.45:
+            if depth > 0 and rnd.random() < 0.3:
+                body = [self.soft_stmt() for _ in range(rnd.randint(1, 2))]
+                if rnd.random() < 0.5:
+                    els = [self.soft_stmt()] if rnd.random() < 0.5 else None
+                    return ["if", self.relation(1), body, [], els]
+                return ["implies", self.relation(1), body]
+            return self.soft_stmt()
         if depth > 0 and r < 0.16:
             elifs = [[self.condition(1), self.stmt_list(depth - 1, 1, 2)] for _ in range(rnd.choice([0, 0, 1, 2]))]
             els = self.stmt_list(depth - 1, 1, 2) if rnd.random() < 0.5 else None
@@ -386,7 +403,7 @@ class Gen(object):
         return ["expr", self.condition()]
 
     def stmt_list(self, depth, lo, hi):
-        return [self.stmt(depth) for _ in range(self.rnd.randint(lo, hi))]
+        return [self.stmt(depth, self.soft_bias) for _ in range(self.rnd.randint(lo, hi))]
 
     def scenario(self, ncalls=3, softs=False):
         rnd = self.rnd
@@ -458,6 +475,26 @@ def track_state(sc, upto):
     return st
 
 
+def post_hard_batches(log):
+    """per solver instance: the terms assumed between its first and its second Sat()"""
+    out = []
+    cur = None
+    nsat = 0
+    for ev in log:
+        if ev[0] == "new":
+            if cur is not None:
+                out.append(cur)
+            cur = []
+            nsat = 0
+        elif ev[0] == "sat":
+            nsat += 1
+        elif ev[0] == "assume" and nsat == 1 and cur is not None:
+            cur.append(ev[1])
+    if cur is not None:
+        out.append(cur)
+    return out
+
+
 def used_ids(log, kind):
     out = set()
 
@@ -485,7 +522,116 @@ def case_literal(sc, opi, res, lits):
     nl = lambda l: clist(["%d%%nat" % x for x in l])
     pre = [h[0] for h in res["hooks"] if h[1] == "pre_randomize"]
     post = [h[0] for h in res["hooks"] if h[1] == "post_randomize"]
-    return "(mkSC %s %s [%s] %s %s %s %s %s %s %s %s %s)" % (
+    batches = clist([clist([term_lit(t) for t in b]) for b in post_hard_batches(res["log"])])
+    doms = clist([copt(res.get("domains", {}).get(str(i)), lambda d: clist([cpair(cz(a), cz(b)) for a, b in d]))
+                  for i in range(len(lits.fields))])
+    return "(mkSC %s %s [%s] %s %s %s %s %s %s %s %s %s %s %s)" % (
         lits.fenv(), lits.enum_doms(), lits.world(), lits.stmts(op.get("inline") or []),
         clist([cz(v) for v in before]), cz(outcome), clist([cz(v) for v in after]), terms,
-        nl(used_ids(res["log"], "fvar")), nl(used_ids(res["log"], "fconst")), nl(pre), nl(post))
+        nl(used_ids(res["log"], "fvar")), nl(used_ids(res["log"], "fconst")), nl(pre), nl(post), batches, doms)
+
+
+# --------------------------------------------------------------------------------------------- classifiers of known findings
+def py_bound_out_of_type(sc, root_cls, stmts_with_prefix, values_by_path):
+    """known finding bounds.python_int_semantics: a top-level relational statement compares with a constant (non-random)
+    expression whose value as a Python integer is not representable in the comparison's own type (negative value in an
+    unsigned comparison, wrap-around): bounds inference evaluates it in unbounded integers, the solver does not."""
+    leaves = {p: f for p, f in leaves_of(sc, root_cls)}
+
+    def ftype(e, prefix):
+        f = leaves[prefix + tuple(e[1])]
+        return (32, True) if f["kind"] == "enum" else (f["w"], f["sg"])
+
+    def typ(e, prefix):
+        k = e[0]
+        if k == "lit" or k == "enumlit":
+            return (32, True)
+        if k == "u":
+            return (e[2], False)
+        if k == "s":
+            return (e[2], True)
+        if k == "f":
+            return ftype(e, prefix)
+        if k == "bin":
+            (wl, sl), (wr, sr) = typ(e[2], prefix), typ(e[3], prefix)
+            return (1, sl and sr) if e[1] in MIRROR else (max(wl, wr), sl and sr)
+        if k == "not":
+            return typ(e[1], prefix)
+        if k in ("in", "notin"):
+            return (1, False)
+        if k == "part":
+            return (e[2] - e[3] + 1, False)
+        if k == "bit":
+            return (1, False)
+        raise Exception(k)
+
+    def is_const(e, prefix):
+        k = e[0]
+        if k in ("lit", "u", "s", "enumlit"):
+            return True
+        if k == "f":
+            return not leaves[prefix + tuple(e[1])].get("rand_now", leaves[prefix + tuple(e[1])]["rand"])
+        if k == "bin":
+            return is_const(e[2], prefix) and is_const(e[3], prefix)
+        if k in ("not", "part", "bit"):
+            return is_const(e[1], prefix)
+        return False
+
+    def pv(e, prefix):
+        k = e[0]
+        if k in ("lit", "u", "s"):
+            return e[1]
+        if k == "enumlit":
+            return sc["enums"][e[1]][e[2]]
+        if k == "f":
+            return values_by_path[prefix + tuple(e[1])]
+        if k == "not":
+            w, _ = typ(e[1], prefix)
+            return ~pv(e[1], prefix) & ((1 << w) - 1)
+        if k == "part":
+            return (pv(e[1], prefix) >> e[3]) & ((1 << (e[2] - e[3] + 1)) - 1)
+        if k == "bit":
+            return (pv(e[1], prefix) >> e[2]) & 1
+        a, b = pv(e[2], prefix), pv(e[3], prefix)
+        op = e[1]
+        if op in ("Div", "Mod"):
+            if b == 0:
+                raise ZeroDivisionError()
+            q = abs(a) // abs(b)
+            q = q if (a < 0) == (b < 0) else -q
+            return q if op == "Div" else a - b * q
+        return {"Add": a + b, "Sub": a - b, "Mul": a * b, "And": a & b, "Or": a | b, "Xor": a ^ b,
+                "Sll": a << b if 0 <= b < 4096 else 0, "Srl": a >> b if 0 <= b < 4096 else 0}.get(op, 0)
+
+    for s, prefix in stmts_with_prefix:
+        if s[0] != "expr" or s[1][0] != "bin" or s[1][1] not in MIRROR:
+            continue
+        l, r = s[1][2], s[1][3]
+        for c, o in ((l, r), (r, l)):
+            try:
+                if is_const(c, prefix) and not is_const(o, prefix):
+                    (wl, sl), (wr, sr) = typ(l, prefix), typ(r, prefix)
+                    W, sg = max(wl, wr), sl and sr
+                    v = pv(c, prefix)
+                    lo, hi = (-(1 << (W - 1)), (1 << (W - 1)) - 1) if sg else (0, (1 << W) - 1)
+                    if not (lo <= v <= hi):
+                        return True
+            except ZeroDivisionError:
+                pass
+    return False
+
+
+def active_statements(sc, root_cls, state, inline, prefix=(), cname=None, out=None):
+    """(statement, object path) of every enabled top-level statement (class blocks of the whole tree, then inline)"""
+    top = out is None
+    out = [] if out is None else out
+    cname = cname or root_cls
+    for f in all_fields(sc, cname):
+        if f["kind"] == "obj":
+            active_statements(sc, root_cls, state, None, prefix + (f["name"],), f["cls"], out)
+    for b in all_blocks(sc, cname):
+        if not b.get("dynamic") and state.get("cmode", {}).get((prefix, b["name"]), True):
+            out.extend((s, prefix) for s in b["stmts"])
+    if top and inline:
+        out.extend((s, ()) for s in inline)
+    return out
